@@ -1705,6 +1705,18 @@ retry:
 }
 
 func (c *dedicatedClusterClient) SetPubSubHooks(hooks PubSubHooks) <-chan error {
+	// keep the invalidation callback installed by SetOnInvalidations (see dedicatedSingleClient.SetPubSubHooks)
+	c.mu.Lock()
+	if c.wire != nil {
+		hooks.onInvalidations = c.wire.GetPubSubHooks().onInvalidations
+	} else if c.pshks != nil {
+		hooks.onInvalidations = c.pshks.hooks.onInvalidations
+	}
+	c.mu.Unlock()
+	return c.setPubSubHooks(hooks)
+}
+
+func (c *dedicatedClusterClient) setPubSubHooks(hooks PubSubHooks) <-chan error {
 	c.mu.Lock()
 	defer c.mu.Unlock()
 	if c.mark {
@@ -1737,7 +1749,7 @@ func (c *dedicatedClusterClient) SetOnInvalidations(fn func([]RedisMessage)) <-c
 	}
 	c.mu.Unlock()
 	hooks.onInvalidations = fn
-	return c.SetPubSubHooks(hooks)
+	return c.setPubSubHooks(hooks)
 }
 
 func (c *dedicatedClusterClient) Close() {
